@@ -899,6 +899,13 @@ func (c *EvalCtx) evalCall(e *Expr) *V {
 		// received(ch): number of values successfully received from channel ch by this activation tree
 		argc(1)
 		return vInt(sSel(st.comp("nrecv", 1, "Int"), c.intOf(e.Args[0])), types.Typ[types.Int])
+	case "callsTo":
+		// callsTo("(*T).f"): number of calls (by contract) to that function of this package so far
+		argc(1)
+		if e.Args[0].Op != "str" {
+			c.fail("callsTo(\"func\")")
+		}
+		return vInt(sSel(st.comp("ncall", 1, "Int"), eng.strID("fn:"+e.Args[0].Str)), types.Typ[types.Int])
 	case "events":
 		// events("kind"): number of trace events of that kind emitted so far
 		argc(1)
@@ -1082,6 +1089,19 @@ func (c *EvalCtx) evalCall(e *Expr) *V {
 				c.fail("unknown type %q", e.Args[1].Str)
 			}
 			return vInt(c.intOf(e.Args[0]), t)
+		}
+	case "typeid":
+		// typeid("T"): the dynamic-type tag of Go type T
+		argc(1)
+		{
+			if e.Args[0].Op != "str" {
+				c.fail("typeid(\"T\")")
+			}
+			t := c.resolveType(e.Args[0].Str)
+			if t == nil {
+				c.fail("unknown type %q", e.Args[0].Str)
+			}
+			return vInt(eng.typeID(t), nil)
 		}
 	case "tagof":
 		argc(1)
